@@ -23,7 +23,7 @@ import (
 // The Lean model (Pithos.TxFs) was written against these tables; Props/C10.lean states the
 // equalities, so moving e.g. the backup removal into the pre-commit closure breaks an obligation.
 
-func init() { registerExtractor("txfshooks", extractTxFsHooks) }
+func init() { registerExtractor("txfshooks", c10ExtractTxFsHooks) }
 
 const c10FsFile = "internal/storage/metadatapart/partstore/filesystem/filesystem.go"
 const c10TxFile = "internal/storage/database/tx.go"
@@ -204,7 +204,7 @@ func c10TxBlock(fd *ast.FuncDecl) *ast.BlockStmt {
 	return nil
 }
 
-func extractTxFsHooks(x *ExtractCtx) error {
+func c10ExtractTxFsHooks(x *ExtractCtx) error {
 	f, err := x.ParseFile(c10FsFile)
 	if err != nil {
 		return err
